@@ -427,18 +427,24 @@ func (o *observer) observe6(m dhcpv6.DHCPv6) {
 	o.call("dhcpv6.GetTransactionID", func() any { r, _ := dhcpv6.GetTransactionID(m); return r })
 	for _, t := range []dhcpv6.MessageType{dhcpv6.MessageTypeRelayForward, dhcpv6.MessageTypeRelayReply, dhcpv6.MessageTypeSolicit} {
 		mt := t
+		var enc *dhcpv6.RelayMessage
 		o.call("dhcpv6.EncapsulateRelay", func() any {
 			r, err := dhcpv6.EncapsulateRelay(m, mt, net.IPv6loopback, net.IPv6linklocalallnodes)
 			if err != nil {
 				return nil
 			}
-			// the encapsulated message must encode, decode and decapsulate again
-			if back, err := dhcpv6.FromBytes(r.ToBytes()); err == nil {
-				dhcpv6.DecapsulateRelay(back)
-				back.GetInnerMessage()
-			}
+			enc = r
 			return r
 		})
+		if enc != nil {
+			// the encapsulated message must encode, decode and decapsulate again
+			var back dhcpv6.DHCPv6
+			o.call("dhcpv6.FromBytes", func() any { back, _ = dhcpv6.FromBytes(enc.ToBytes()); return nil })
+			if back != nil {
+				o.call("dhcpv6.DecapsulateRelay", func() any { dhcpv6.DecapsulateRelay(back); return nil })
+				o.call("DHCPv6.GetInnerMessage", func() any { back.GetInnerMessage(); return nil })
+			}
+		}
 	}
 	o.call("ztpv6.ParseVendorData", func() any { r, _ := ztpv6.ParseVendorData(m); return r })
 	o.call("ztpv6.ParseRemoteID", func() any { r, _ := ztpv6.ParseRemoteID(m); return r })
